@@ -113,7 +113,7 @@ func vC09(shape []int, complMask int) {
 	vObserve("m0", min[0][0])
 }
 
-//verif:harness prop=C09 quick=5 thorough=12
+//verif:harness prop=C09 quick=5 thorough=12 timeout=1800
 //verif:bounds Minimize/InvertLinear/InvertCircular over region collections with at most 3 (quick) / 5 (thorough) segments in 1..3 regions, each region forward or complemented; n, heads and lengths symbolic in [0,2^40]; sort.Sort is the real pdqsort/insertionSort source
 func VH_C09_minimize_invert() {
 	n := 5
